@@ -41,7 +41,14 @@ BigInvs == {Inv("output", f, m, file, FALSE, {}, "", FALSE, FALSE, FALSE, "big",
 BrokenInvs == {Inv("output", f, m, file, FALSE, {}, "", FALSE, FALSE, FALSE, d, "broken") : f \in {"", "json"}, m \in B, file \in {"stdin", "existing"}, d \in {"wf", "empty", "malformed"}}
               \cup {Inv("mkdir", "", FALSE, "stdin", dr, {".x"}, "", FALSE, FALSE, FALSE, "wf", "broken") : dr \in B}
               \cup {Inv("template", "", FALSE, "stdin", FALSE, {}, "", FALSE, FALSE, FALSE, "wf", "broken")}
-BaseInvs == BigInvs \cup BrokenInvs \cup OutputInvs \cup MkdirInvs \cup VerifyInvs \cup TemplateInvs \cup DotInvs \cup TimeoutInvs \cup WatchInvs \cup UsageInvs \cup InfoInvs
+\* an empty word right after the command (the flags behind it must not be dropped silently: it is a usage error)
+EmptyArgInvs == {[Inv(s, "", FALSE, "stdin", dr, e, "", st, FALSE, FALSE, "wf", "pipe") EXCEPT !.usage = "emptyarg"] :
+                   s \in {"output", "mkdir", "verify"}, dr \in B, e \in {{}, {".x"}}, st \in B}
+\* stdin is /dev/null: the empty document, for every command that reads one
+NullInvs == {Inv("output", f, m, "null", FALSE, {}, "", FALSE, FALSE, FALSE, "empty", "pipe") : f \in {"", "json"}, m \in B}
+            \cup {Inv("mkdir", "", FALSE, "null", dr, {}, "", FALSE, FALSE, FALSE, "empty", "pipe") : dr \in B}
+            \cup {Inv("verify", "", FALSE, "null", FALSE, {}, "", s, FALSE, FALSE, "empty", "pipe") : s \in B}
+BaseInvs == EmptyArgInvs \cup NullInvs \cup BigInvs \cup BrokenInvs \cup OutputInvs \cup MkdirInvs \cup VerifyInvs \cup TemplateInvs \cup DotInvs \cup TimeoutInvs \cup WatchInvs \cup UsageInvs \cup InfoInvs
 \* every invocation in its three spellings, with the argv words the real binary is given
 Spelled(S, sps) == {[ [i EXCEPT !.sp = sp] EXCEPT !.argv = Argv([i EXCEPT !.sp = sp])] : i \in S, sp \in sps}
 AllInvs == Spelled(BaseInvs, {"long", "short", "eq"})
@@ -49,5 +56,5 @@ QuickInvs == Spelled(BaseInvs, {"long"}) \cup Spelled({i \in BaseInvs : i.stdout
 \* second and third steps of a sequence: the same well-formed document, mkdir / verify variants
 Follow == Spelled({Inv("mkdir", "", FALSE, "stdin", dr, {".x"}, "", FALSE, FALSE, FALSE, "wf", "pipe") : dr \in B}
           \cup {Inv("verify", "", FALSE, "stdin", FALSE, {}, "", s, FALSE, FALSE, d, "pipe") : s \in B, d \in {"wf", "dot"}}, {"long", "short"})
-FirstOfSeq == {i \in AllInvs : i.sp = "long" /\ i.sub \in {"mkdir", "verify"} /\ i.doc = "wf" /\ i.target = "" /\ ~i.stray /\ ~i.unknown /\ i.file = "stdin" /\ i.exts = {".x"} /\ i.stdout = "pipe"}
+FirstOfSeq == {i \in AllInvs : i.sp = "long" /\ i.usage = "" /\ i.sub \in {"mkdir", "verify"} /\ i.doc = "wf" /\ i.target = "" /\ ~i.stray /\ ~i.unknown /\ i.file = "stdin" /\ i.exts = {".x"} /\ i.stdout = "pipe"}
 =============================================================================
